@@ -21,7 +21,7 @@ def specrun(case):
     os.unlink(f.name)
     if not r.outs:
         return None
-    return r.outs[-1]
+    return r.outs[-1]          # one case in the file: [n, status, why, result, buf, log, steps]
 
 def failing(case, eng, variant):
     obs, texts = progs.run_cases([case], [eng], variant, inline_calls=bool(os.environ.get("R2_INLINE")), main_first=bool(os.environ.get("R2_MAINFIRST")))
